@@ -208,6 +208,8 @@ class DepDomain(Domain):
             return self._union(args[0])
         if dotted in ('builtins.print', 'warnings.warn'):
             return Const(None)
+        if dotted in ('builtins.map', 'builtins.zip', 'builtins.enumerate', 'builtins.reversed') and args and any(isinstance(a, Tup) for a in args):
+            return None          # structural: the interpreter applies / pairs the elements itself
         if len(vals) == 1 and isinstance(vals[0], Dep) and len(vals[0].deps) == 1 and vals[0].inj == vals[0].deps:
             # a many-to-one function of one atom (abs, round, int, len ...): a derived atom of its own.  A key holding it determines
             # it (and whatever is computed from it), but not the atom it was derived from
